@@ -294,6 +294,8 @@ class StoreDriver(object):
                 return "missing"
             except I.InvalidInput:
                 return "invalid"
+            except Exception as e:      # noqa -- not an outcome of the specification: reported as such, judged by StoreTrace.tla
+                return "escaped:" + type(e).__name__
         if op["op"] == "set":
             s[k] = op["t"]
             return "None"
